@@ -8,7 +8,7 @@ from concurrent.futures import ThreadPoolExecutor
 from .. import core, tlc
 from ..tlaparse import to_json
 
-INVS = ['CodeWins', 'EnvBacksDocumented', 'AbsentOtherwise', 'ExclusionWins', 'AppIffIncludedOrRoot', 'SameEitherWay', 'FunctionsAreCalled', 'ShortIsSuffix', 'RootCodeWins']
+INVS = ['CodeWins', 'EnvBacksDocumented', 'AbsentOtherwise', 'ExclusionWins', 'AppIffIncludedOrRoot', 'SameEitherWay', 'FunctionsAreCalled', 'ShortIsSuffix', 'RootCodeWins', 'EachStartOnItsOwn']
 
 
 def probe(case):
@@ -201,6 +201,7 @@ def run(c):
     consumers = [s for s in states if s['table'] == 'consumer']
     paths = [s for s in states if s['table'] == 'path']
     roots = [s for s in states if s['table'] == 'root']
+    rootseqs = [s for s in states if s['table'] == 'rootseq']
     with ThreadPoolExecutor(12) as ex:
         rres = list(ex.map(lambda s: root_case(s['case']), roots))
         lres = list(ex.map(lambda s: lookup_case(s['case']), lookups))
@@ -229,13 +230,36 @@ def run(c):
             c.violation('setting %s given as %s: %s (expected %s)' % (s['case']['setting'], s['case']['form'], got,
                                                                       s['expected']['behaviour']), path,
                         signature={'setting': s['case']['setting'], 'form': s['case']['form']})
-    # several configurations resolved in ONE process (the root table of ConfigResolve applies to each on its own)
-    for seq in (['computed_here', 'computed_other', 'computed_here'], ['computed_other', 'code', 'env', 'computed_here'],
-                ['env', 'computed_other', 'code']):
-        res = probe({'kind': 'root_sequence', 'seq': seq, 'code': {}, 'env': {}})
+    # several configurations resolved in ONE process (table rootseq of ConfigResolve: each start on its own)
+    import random as _random
+    rs_rng = _random.Random(c.seed)
+    if c.tier != 'quick':
+        pick = rootseqs
+    else:
+        # always: the sequences in which no start names its root in code (every pair of sources); plus a sample
+        must = [s_ for s_ in rootseqs if all(rc['code'] == 'absent' for rc in s_['case']) and len(s_['case']) == 2]
+        rest = [s_ for s_ in rootseqs if s_ not in must]
+        pick = must + rs_rng.sample(rest, min(len(rest), 6))
+
+    def seq_case(st):
+        seq = []
+        for i, rc in enumerate(st['case']):
+            if rc['code'] == 'value':
+                seq.append('code')
+            elif rc['env'] == 'text':
+                seq.append('env')
+            else:
+                seq.append('computed_other' if i % 2 else 'computed_here')
+        return seq, probe({'kind': 'root_sequence', 'seq': seq, 'code': {}, 'env': {}})
+    with ThreadPoolExecutor(6) as ex:
+        sres = list(ex.map(seq_case, pick))
+    for st, (seq, res) in zip(pick, sres):
         c.traces_validated += 1
         c.note_case(key=('root-sequence', str(seq)), nontrivial=True)
         bad = None
+        src_of = {'code': 'code', 'env': 'env_text', 'computed_here': 'computed', 'computed_other': 'computed'}
+        if [src_of[x] for x in seq] != list(st['expected']['src']):
+            raise tlc.MachineryError('root sequence %s does not realise the spec case %s' % (seq, st['case']))
         if 'error' in res:
             bad = 'raised %s' % res['error']
         elif res.get('roots') != res.get('want'):
@@ -244,7 +268,7 @@ def run(c):
             bad = 'a configuration made afterwards without APP_ROOT resolves %r, before the agents were started it ' \
                   'resolved %r' % (res.get('plain_after'), res.get('plain_before'))
         if bad:
-            path = c.save_replay({'direction': 'S2C', 'module': 'ConfigResolve', 'table': 'root-sequence', 'seq': seq,
+            path = c.save_replay({'direction': 'S2C', 'module': 'ConfigResolve', 'table': 'rootseq', 'seq': seq,
                                   'result': res})
             c.violation('agents configured one after the other in one process %s: %s' % (seq, bad), path)
     path_cases(c, paths)
